@@ -245,4 +245,25 @@ example :
     res.1.orch.statusOf "b" = some .rerouted ∧ res.1.orch.statusOf "c" = some .rerouted := by
   decide
 
+open CC in
+/-- the claim path of awaited invocations is an extension: without blocking candidates `get_invocations_to_run` is the
+    queue poll of the theorems above -/
+theorem pollB_nil (T : Table) (conf : String → TaskConf) (s : Sys) (n : Nat) (rid : Option String) (now : Int) :
+    pollB T conf s n rid now [] = poll T conf s n rid now := by
+  simp only [pollB, poll, blockingLoop, Bool.not_true, Bool.false_eq_true, if_false, List.length_nil, Nat.sub_zero]
+  rfl
+
+open CC in
+/-- **One poll never hands out two awaited invocations with one key** (the model's run of the scenario of the
+    `awaited_same_key_probe`): a, b (same arguments) and c are all reported as blocking; the poll claims a, skips b — its
+    status and its message stay — and claims c. -/
+theorem awaited_same_key_claimed_once :
+    let tc : TaskConf := { runMode := .arguments, rerouteOnCC := true }
+    let s1 := (routeCall {} tc "t" "c1" [("x", "1")] "a" (some "cl") 0).1
+    let s2 := (routeCall s1 tc "t" "c2" [("x", "1")] "b" (some "cl") 0).1
+    let s3 := (routeCall s2 tc "t" "c3" [("x", "2")] "c" (some "cl") 0).1
+    let res := pollB Gen.table (fun _ => tc) s3 4 (some "r1") 1 ["a", "b", "c"]
+    res.2 = .ok ["a", "c"] ∧ res.1.orch.statusOf "b" = some .rerouted := by
+  decide
+
 end Pynenc.C06
